@@ -1006,7 +1006,9 @@ func c10r6(r *R) {
 		})
 		sa := describe(settingsCall.Common().Args[1])
 		good = uncond && strings.HasPrefix(sa, "local:settings") || uncond && sa != ""
-		guard := guardedBy(settingsCall.Block(), func(s string) bool { return strings.Contains(s, "ForeachSetting") && strings.HasPrefix(s, "!") && strings.HasSuffix(s, "!= nil)") })
+		guard := guardedBy(settingsCall.Block(), func(s string) bool {
+			return strings.Contains(s, "ForeachSetting") && strings.HasPrefix(s, "!") && strings.HasSuffix(s, "!= nil)")
+		})
 		good = good && guard
 		// ... and by nothing else: a further condition (number of settings, values) would swallow some SETTINGS frames,
 		// and the peer would wait for an acknowledgement that never comes
